@@ -338,6 +338,154 @@ func run(r *vk.Runner) {
 			})
 		}
 	}
+	runPairs(r)
+}
+
+// runPairs: every declaration next to a second declaration of the same family in one object.
+// The second field is left absent (it is optional or not required) or, when required, holds a
+// valid value: the verdict on the first field's candidates must not change.
+func runPairs(r *vk.Runner) {
+	var v protovalidate.Validator
+	byFam := map[string][]*gj5s.RuleSpec{}
+	var fams []string
+	for _, rs := range gj5s.RuleSpecs() {
+		if rs.ProtoEnum {
+			continue
+		}
+		if _, ok := byFam[rs.Family]; !ok {
+			fams = append(fams, rs.Family)
+		}
+		byFam[rs.Family] = append(byFam[rs.Family], rs)
+	}
+	for _, fam := range fams {
+		list := byFam[fam]
+		r.Family("rule-pairs:" + fam)
+		for i, a := range list {
+			// partners: the next declaration of the family, and the nearest required one
+			partners := []*gj5s.RuleSpec{list[(i+1)%len(list)]}
+			for k := 1; k < len(list); k++ {
+				if p := list[(i+k)%len(list)]; p.Required && p != partners[0] {
+					partners = append(partners, p)
+					break
+				}
+			}
+			for _, b := range partners {
+				a, b := a, b
+				if r.Stopped() {
+					return
+				}
+				var md protoreflect.MessageDescriptor
+				var src string
+				var compileErr error
+				compiled := false
+				get := func() (protoreflect.MessageDescriptor, error) {
+					if !compiled {
+						compiled = true
+						prog := gj5s.RulePairProgram(a, b)
+						if prog == nil {
+							compileErr = fmt.Errorf("no pair program")
+							return nil, compileErr
+						}
+						bd := prog.Bundle()
+						src = bd.Files["t/v1/a.j5s"]
+						files, err := bd.Compile("t.v1")
+						if err != nil {
+							compileErr = err
+						} else {
+							for _, f := range files {
+								if d := f.Messages().ByName("Holder"); d != nil {
+									md = d
+								}
+							}
+						}
+					}
+					return md, compileErr
+				}
+				// a valid value for the partner when it is required
+				var partnerOK *cand
+				for _, c := range candidates(b) {
+					c := c
+					if c.ok && !c.zero {
+						partnerOK = &c
+						break
+					}
+				}
+				cands := candidates(a)
+				if a.Required {
+					cands = append(cands, cand{name: "absent", set: func(protoreflect.Message, protoreflect.FieldDescriptor) {}, ok: false, zero: true})
+				}
+				// the partner holds a valid value; when it is explicitly optional (a scalar that is
+				// not required) it is also left absent
+				partnerOptional := !b.Required && b.Family != "array" && b.Family != "map"
+				type pstate struct {
+					name string
+					set  bool
+				}
+				states := []pstate{{"partner-valid", true}}
+				if partnerOptional {
+					states = append(states, pstate{"partner-absent", false})
+				}
+				for _, c := range cands {
+				for _, ps := range states {
+					c, ps := c, ps
+					if !r.Mine() {
+						r.SkipCase()
+						continue
+					}
+					r.Do(fmt.Sprintf("pair|%s|%s|%s|%s", a.ID, b.ID, c.name, ps.name), func(t *vk.T) {
+						t.Coord("rule-pairs|" + a.Family)
+						t.SigCoord("rule-pairs|" + a.Family)
+						t.Nontrivial()
+						md, err := get()
+						if err != nil {
+							t.Class("does-not-compile")
+							return
+						}
+						if c.zero && !a.Required && c.name != "absent" {
+							t.Class("ambiguous-zero-skipped")
+							return
+						}
+						if ps.set && partnerOK == nil {
+							t.Class("no-valid-partner-value")
+							return
+						}
+						want := c.ok
+						if c.zero && a.Required {
+							want = false
+						}
+						if v == nil {
+							v, err = protovalidate.New()
+							if err != nil {
+								panic(err)
+							}
+						}
+						msg := dynamicpb.NewMessage(md)
+						c.set(msg, md.Fields().ByName("val"))
+						if ps.set {
+							partnerOK.set(msg, md.Fields().ByName("other"))
+						}
+						verr := v.Validate(msg)
+						t.Step()
+						got := verr == nil
+						if verr != nil {
+							if _, isViolation := verr.(*protovalidate.ValidationError); !isViolation {
+								t.Violation("validator-cannot-evaluate|pair|"+a.Family+"|"+vk.ErrTail(verr), fmt.Sprintf("the compiled constraints cannot be evaluated: %v\n%s", verr, src), src, nil, verr.Error())
+								return
+							}
+						}
+						if got != want {
+							verdict := map[bool]string{true: "accepts", false: "rejects"}
+							t.Violation(fmt.Sprintf("verdict|pair|%s|validator-%s", a.Family, verdict[got]),
+								fmt.Sprintf("with a second %s field in the object (absent unless required), the validator %s value %s of field val, the declared rules %s it (%v)\n%s", b.Family, verdict[got], c.name, map[bool]string{true: "allow", false: "forbid"}[want], verr, src), src, want, got)
+							return
+						}
+						t.Class(map[bool]string{true: "accepted", false: "rejected"}[got])
+					})
+				}
+				}
+			}
+		}
+	}
 }
 
 // ruleClass: which rules the declaration carries (structural coordinates).
